@@ -15,13 +15,15 @@
      code 102  known finding k=2: status 10013 (NFS3ERR_DELAY does not exist in NFSv3) in an otherwise well-formed
                FAILURE reply of an NFSv3 call made while per-operation rate limiting refuses READ / WRITE / READDIR /
                READDIRPLUS, or while the operation timeouts expire
-     code 103  (candidate k=3) MOUNT version 1 MNT answered with the MOUNT v3 mountres3 body instead of RFC 1094's
+     code 103  known finding k=3: MOUNT version 1 MNT answered with the MOUNT v3 mountres3 body instead of RFC 1094's
                fhstatus (status + 32-byte fhandle)
    The signatures are narrow: the same reply must parse when, and only when, the one extra status value is admitted as
    a failure status; a 4 or 10013 anywhere else, or with a wrong shape, is code 2.
    [mismatch] (code 1): for every reply the Go-side decoder nfsx.Decode was applied to, the fields this grammar extracts
    (status, type/size/fileid of every attribute block, pre-op sizes, handle, numbers, entry names and file ids, data
-   length, eof) equal the ones nfsx.Decode extracted, and both decoders agree on whether the bytes parse at all. *)
+   length, eof) equal the ones nfsx.Decode extracted, and both decoders agree on whether the bytes parse at all; and
+   every reply that parses (with any status admitted) is re-encoded by the RFC ENCODER of Model/Rfc1813.v (the one the
+   theorems of Properties/C14.v are about) and must give back exactly the bytes the server sent. *)
 From Coq Require Import PrimInt63.
 From Coq Require Import List NArith ZArith Bool.
 From Verif Require Import Model.Bytes Model.Rfc1813 Corr.Common.
@@ -143,8 +145,36 @@ Definition mismatch_step (x : step) : list N :=
   | _, _ => []
   end.
 
+(* ---- the RFC ENCODER of Model/Rfc1813.v against the implementation's bytes: whatever parses is re-encoded (null
+   verifier) and must give back exactly the bytes the server sent ---- *)
+Definition wire_of_kind (xid : N) (k : reply_kind) (p : option rproc) : option bytes :=
+  match k, p with
+  | KSuccess t, Some p => Some (enc_accepted xid AS_SUCCESS (enc_tree p t))
+  | KSuccess _, None => None
+  | KProgUnavail, _ => Some (enc_accepted xid AS_PROG_UNAVAIL [])
+  | KProgMismatch lo hi, _ => Some (enc_accepted xid AS_PROG_MISMATCH (e_u32 lo ++ e_u32 hi))
+  | KProcUnavail, _ => Some (enc_accepted xid AS_PROC_UNAVAIL [])
+  | KGarbageArgs, _ => Some (enc_accepted xid AS_GARBAGE_ARGS [])
+  | KSystemErr, _ => Some (enc_accepted xid AS_SYSTEM_ERR [])
+  | KRpcMismatch lo hi, _ => Some (enc_reply_hdr xid ++ e_u32 RS_MSG_DENIED ++ e_u32 RJ_RPC_MISMATCH ++ e_u32 lo ++ e_u32 hi)
+  | KAuthError a, _ => Some (enc_denied_auth xid a)
+  end.
+Definition reenc_step (x : step) : list N :=
+  match st_reply x with
+  | Some w =>
+      match parse_reply_x any_status (st_prog x) (st_vers x) (st_proc x) w with
+      | Some (xid, k) =>
+          match wire_of_kind xid k (rproc_of (st_prog x) (st_vers x) (st_proc x)) with
+          | Some w' => if bytes_eqb w w' then [] else [code_mismatch]
+          | None => [code_mismatch]
+          end
+      | None => []          (* does not parse even with every status admitted: specfail reports it *)
+      end
+  | None => []
+  end.
+
 Definition check (c : case) : list (N * N) :=
-  flat_map (fun ix => map (fun code => (fst ix, code)) (specfail_step (snd ix) ++ mismatch_step (snd ix)))
+  flat_map (fun ix => map (fun code => (fst ix, code)) (specfail_step (snd ix) ++ mismatch_step (snd ix) ++ reenc_step (snd ix)))
            (index_from 0 (c_steps c)).
 Definition run (cases : list case) : result := run_cases check cases.
 
